@@ -137,6 +137,15 @@ CLAIMED = {
             "guard page placed directly after maxlen bytes; size bound len+3 asserted on every text.",
             "Trusted: normalisation oracle (truncate to maxlen, strip trailing zeros, NaNs unified, -0 != +0).",
             "property-based pair testing with prefix/equality oracle + guard-page fault injection", "5 C15"),
+    "C17": ("qp", "exploration",
+            "Stateful generated sequences over pools of qsbr_ptr and qsbr_ptr_span objects are compared step by step "
+            "with a shadow model of raw pointers / spans; the liveness verdict is probed in forked children "
+            "(quiescent state and pause+resume) after generated prefixes in an assertion-enabled build (must "
+            "abort iff a non-null wrapper is alive) and in an NDEBUG+ASan+UBSan build (must never abort); all "
+            "sequences up to length 4 over a reduced alphabet are enumerated.",
+            "Self-assignment, arithmetic outside the buffer and on null are outside the statement / UB and are not "
+            "generated; a rejected call is observed as SIGABRT of the forked child.",
+            "stateful model-based testing against a raw-pointer shadow model + fork-probed liveness verdicts", "5 C17"),
 }
 
 PENDING_REASON = ("not claimed yet: the harness for this property is designed in DESIGN.md but not built at this "
@@ -187,6 +196,9 @@ def main():
             {"name": "qsbr_fault", "path": "src/fault", "serves_properties": ["C08"],
              "kind_free_text": "generated QSBR scripts with the k-th-allocation fault loop around resume / thread "
                                "start / deallocation request; built without sanitizers, links test_heap.cpp"},
+            {"name": "qp", "path": "src/qsbrptr", "serves_properties": ["C17"],
+             "kind_free_text": "seeded stateful sequence generator + exhaustive short-sequence enumerator with "
+                               "drop-one shrinking; two builds (assertions / NDEBUG+sanitizers); fork per liveness probe"},
             {"name": "enc", "path": "src/enc", "serves_properties": ["C11", "C12", "C15"],
              "kind_free_text": "exhaustive chain enumerator (optimised build) + seeded generator of component tuples "
                                "with value shrinking (ASan+UBSan build); oracle restates the documented total order"},
